@@ -72,6 +72,7 @@ func (c *containerServer) handleExecve(cmd *execCmd, msg unixsocket.Msg) error {
 		if err != nil {
 			return fmt.Errorf("sync func: recv cmd: %w", err)
 		}
+		verifCmdEvent("init", "syncgot", &cmd)
 		if cmd.Cmd == cmdKill {
 			return fmt.Errorf("sync func: received kill")
 		}
@@ -114,6 +115,7 @@ func (c *containerServer) handleExecve(cmd *execCmd, msg unixsocket.Msg) error {
 	}
 	// starts the runner, error is handled same as wait4 to make communication equal
 	pid, err := r.Start()
+	verifEvent("init", "start", "ok", err == nil)
 	if err != nil {
 		s := "<nil>"
 		if len(cmd.Argv) > 0 {
@@ -147,11 +149,14 @@ func (c *containerServer) handleExecveStarted(pid int) error {
 	c.waitPid <- pid
 
 	var ret waitPidResult
+	verifPoint("init.started")
 	select {
 	case <-c.done: // socket error happened
+		verifEvent("init", "branch", "b", "done")
 		return c.err
 
 	case <-c.recvCh: // kill cmd received
+		verifEvent("init", "branch", "b", "kill")
 		syscall.Kill(-1, syscall.SIGKILL)
 		ret = <-c.waitPidResult
 		c.waitAll <- struct{}{}
@@ -161,6 +166,7 @@ func (c *containerServer) handleExecveStarted(pid int) error {
 		}
 
 	case ret = <-c.waitPidResult: // child process returned
+		verifEvent("init", "branch", "b", "child")
 		syscall.Kill(-1, syscall.SIGKILL)
 		c.waitAll <- struct{}{}
 
